@@ -132,10 +132,10 @@ theorem rxBytes_step_rx (e : Ep) (c : Bytes) (hc : e.closed = false) :
   simp only []
   obtain ⟨_, i2, _, _⟩ := handleMsgs_frame (feed e.rx c).2 (rxEntry e c)
   split
-  · have := congrArg RxView.rxBytes (view_doClose (handleMsgs (rxEntry e c) (feed e.rx c).2).1)
+  · have := congrArg RxView.rxBytes (view_doClose { (handleMsgs (rxEntry e c) (feed e.rx c).2).1 with rxMore := false })
     simp only [Ep.rxView] at this
-    rw [this, i2]; rfl
-  · rw [i2]; rfl
+    rw [this]; exact i2
+  · exact i2
 
 /-! ### the system invariant -/
 
